@@ -64,6 +64,11 @@ type Scenario struct {
 // SlowLogSites are log calls of the library that sit between two steps of the reconnect / resume procedure.
 var SlowLogSites = []string{"Succeeded in resuming upstream", "Succeeded in resuming downstream", "Wait until connected", "Try reconnecting", "Reconnected"}
 
+// NewSlowLogger returns a logger that blocks for d at every message whose format starts with prefix.
+func NewSlowLogger(prefix string, d time.Duration) log.Logger {
+	return &slowLogger{prefix: prefix, d: d}
+}
+
 type slowLogger struct {
 	prefix string
 	d      time.Duration
